@@ -71,7 +71,8 @@ theorem collect_map {α} (f : α → M Json) : ∀ xs : List α, Rs.collect_resu
   | x :: xs => by
     have ih := collect_map f xs
     rw [map_list] at ih ⊢
-    rw [List.map_cons, Rs.collect_result, ih, List.mapM_cons]
+    have ih' : Rs.collectM (List.map f xs) = xs.mapM f := by simpa [rs] using ih
+    simp only [rs, List.map_cons, Rs.collectM, ih', List.mapM_cons]
     rfl
 
 theorem collect_map_data (f : Json → M Json) (xs : List Json) : Rs.collect_result (Rs.map xs f) = mapData f xs := by
